@@ -357,12 +357,22 @@ def explore(ctx):
                                   'dtype': dt})
     ctx.run_cases(run_case, cases, chunk=1, sweep='A1-from_sparse')
     cases = []
+    k = 0
     for feat in ('sparse', 'sparse_rows', 'noind'):
         for tfe in ('sparse', 'sparse_rows', 'noind'):
             for idt in ('int32', 'uint32'):
-                cases.append({'kind': 'a2', 'full': ctx.thorough,
-                              'spec': {'features': feat, 'tfeatures': tfe, 'raw': False,
-                                       'id_dtype': idt, 'fill': ctx.seed, 'n_spikes': 6}})
+                for cur in ('same', 'swapped'):
+                    # 'swapped': curated clusters that differ from the templates (existing ids only):
+                    # the column tables are per *template*, whatever the cluster of the spike
+                    st = [0, 1, 2, 0, 2, 1]
+                    sc = 'same' if cur == 'same' else [1, 0, 2, 2, 0, 1]
+                    spec = {'features': feat, 'tfeatures': tfe, 'raw': False, 'id_dtype': idt,
+                            'fill': ctx.seed, 'n_spikes': 6, 'spike_templates': st,
+                            'spike_clusters': sc,
+                            # a template-feature table as wide as the number of templates, or narrower
+                            'n_tloc': 3 if k % 2 else 2}
+                    k += 1
+                    cases.append({'kind': 'a2', 'full': ctx.thorough, 'spec': spec})
     ctx.run_cases(run_case, cases, chunk=1, sweep='A2-model-queries')
     cases = [{'kind': 'a3', 'n_sub': n, 'variant': v, 'fill': ctx.seed}
              for n in (4, 5, 6, 7) for v in range(5 if ctx.thorough else 3)]
